@@ -19,7 +19,7 @@ import sys
 import time
 
 VERIF = os.path.dirname(os.path.dirname(os.path.abspath(__file__)))
-REPO = "/repo"
+REPO = os.environ.get("VERIF_REPO") or os.environ.get("VP_RUN_REPO") or "/repo"
 SPEC = os.path.join(VERIF, "spec")
 WORK = os.path.join(VERIF, "work")
 HARNESS = os.path.join(VERIF, "harness")
@@ -71,6 +71,11 @@ def build_harness(release=False):
     lock_dst = os.path.join(HARNESS, "Cargo.lock")
     if not os.path.exists(lock_dst):
         shutil.copy(lock_src, lock_dst)
+    # the path dependency follows REPO (default /repo; a snapshot when run under `vp run --with-repo`)
+    tmpl = open(os.path.join(HARNESS, "Cargo.toml.in")).read().replace("@REPO@", REPO)
+    ct = os.path.join(HARNESS, "Cargo.toml")
+    if not os.path.exists(ct) or open(ct).read() != tmpl:
+        open(ct, "w").write(tmpl)
     cmd = ["cargo", "build", "--offline", "--quiet"]
     if release:
         cmd.append("--release")
